@@ -18,7 +18,7 @@ matplotlib.use("Agg")
 import matplotlib.pyplot as plt
 
 PROP = "C17"
-ANALYSES = ["solve", "solve_tags", "rail_rep", "params", "limits", "phases", "tree", "save", "plot_interp", "make_diag", "make_hdiag", "batt_life",
+ANALYSES = ["plot_interp_all", "solve", "solve_tags", "rail_rep", "params", "limits", "phases", "tree", "save", "plot_interp", "make_diag", "make_hdiag", "batt_life",
             "make_diag_nogroup", "make_hdiag_nogroup"]
 
 
@@ -33,6 +33,17 @@ def systems(pal=0):
         mk("L2", "ILx", ["V1"]), mk("L3", "RO", ["P1"]), mk("D1", "RD1", ["S1"]), mk("L4", "IL", ["D1"]), mk("M1", "RM1", ["S1"]), mk("L5", "PLx", ["M1"])])
     m = mux_spec([("S", "live"), ("SC", "inact-reg"), ("SH", "live")], pal, True, rails=True, by_rail=True, below="deep")
     out["mux3"] = m
+    # milliamp-range 1-D tables (every io point below 0.1 A), negative per-phase load values (magnitudes), a table on the first AND later components
+    mio = [0.0, 1e-3, 2e-2, 8e-2]
+    out["mtables"] = dict(name="mtables", phases=dict(PH2), comps=[
+        S("S1"),
+        dict(n="C1", k="Converter", a=dict(vo=3.3, eff={"vi": [5.0], "io": mio[1:], "eff": [[0.6, 0.8, 0.9]]}, iq=1e-4), p=["S1"], g="", r=""),
+        dict(n="G1", k="LinReg", a=dict(vo=1.8, vdrop=0.2, ig={"vi": [3.3], "io": mio, "ig": [[1e-5, 2e-5, 9e-5, 2e-4]]}), p=["C1"], g="a", r=""),
+        dict(n="V1", k="VLoss", a=dict(vdrop={"vi": [5.0], "io": mio[1:], "vdrop": [[0.05, 0.1, 0.3]]}), p=["S1"], g="", r=""),
+        dict(n="P1", k="PSwitch", a=dict(rs=0.2, ig={"vi": [2.5, 5.0], "io": mio[1:], "ig": [[1e-5, 2e-5, 3e-5], [2e-5, 3e-5, 5e-5]]}), p=["V1"], g="", r=""),
+        dict(n="L1", k="ILoad", a=dict(ii=0.03, iis=1e-4), p=["G1"], g="", r="", pc={"a": -0.012, "b": 0.02}),
+        dict(n="L2", k="PLoad", a=dict(pwr=0.05, pwrs=1e-4), p=["P1"], g="", r="", pc={"a": -0.02}),
+        dict(n="L3", k="RLoad", a=dict(rs=400.0), p=["C1"], g="b", r="", pc={"b": -900.0})])
     return out
 
 
@@ -75,6 +86,15 @@ def run_analysis(s, spec, name, args):
             r = ("fig", None if fig is None else [[hashlib.sha1(l.get_ydata().tobytes()).hexdigest() for l in ax.lines] for ax in fig.axes])
             plt.close("all")
             return r
+        if name == "plot_interp_all":   # every tabulated component, 2-D ones also as a 3-D surface, with and without the input data points
+            out_ = []
+            for c in spec["comps"]:
+                if any(isinstance(v, dict) for v in c["a"].values()):
+                    for kw_ in (dict(), dict(inpdata=False), dict(plot3d=True)):
+                        fig, _ = quiet_call(s.plot_interp, c["n"], **kw_)
+                        out_.append((c["n"], sorted(kw_), None if fig is None else [[hashlib.sha1(l.get_ydata().tobytes()).hexdigest() for l in ax.lines] for ax in fig.axes]))
+                        plt.close("all")
+            return ("figs", out_)
         if name in ("make_diag", "make_hdiag"):
             p = os.path.join(wd, "d.raw")
             quiet_call(make_diag if name == "make_diag" else make_hdiag, s, fname=p, config=args["config"])
@@ -232,8 +252,9 @@ def check_edit_between(case):
         if c["n"] == leaf:
             c["p"] = [newp]
     spec["comps"] = [c for c in spec["comps"] if c["n"] != leaf] + [c for c in spec["comps"] if c["n"] == leaf]   # the moved leaf is built last
-    got = run_analysis(s, spec, "solve", mkargs())
-    want = run_analysis(build(spec), spec, "solve", mkargs())
+    fin = case.get("b", "solve")
+    got = run_analysis(s, spec, fin, mkargs())
+    want = run_analysis(build(spec), spec, fin, mkargs())
     res.stats["transitions"] += 4
     from ..reports import diff_tables
     if (diff_tables(got, want, 1e-9, 1e-12) if isinstance(got, dict) and isinstance(want, dict) else got != want):
